@@ -245,6 +245,15 @@ def p1_inventory(ctx, cfgs):
                     if why:
                         r.inst("%s#format_ident!@%s" % (root_fn(b.name), why[0]), "auto-discharged: " + why[1], cfg=cfg)
                         continue
+                if s["kind"] == "ident-new" and re.search(r"Ident::new$", s["what"] or "") and s["term"].get("args"):
+                    # Ident::new(text, span) panics on text that is not an identifier: fine when only string *constants* that are
+                    # identifiers can flow into the first argument (a literal, or a name picked by a match over literals)
+                    a0_ = s["term"]["args"][0]
+                    c0_ = op_const(a0_)
+                    consts_, other_ = ([c0_["str"]], False) if c0_ and "str" in c0_ else (_const_strs(b, op_place(a0_)["l"], 2) if op_place(a0_) is not None else ([], True))
+                    if consts_ and not other_ and all(re.match(r"^[A-Za-z_][A-Za-z0-9_]*$", c_) for c_ in consts_):
+                        r.inst("%s#Ident::new@%s" % (root_fn(b.name), "|".join(sorted(set(consts_)))[:60]), "auto-discharged: the text is one of the identifier constants %s" % sorted(set(consts_))[:6], cfg=cfg)
+                        continue
                 key = (root_fn(b.name), s["kind"], s["label"] or s["what"])
                 counts[key] += 1
                 lines[key].append("%s:%d" % (b.file, s["line"]))
@@ -376,6 +385,26 @@ def r1_unrenderable(ctx, prog):
     else:
         oks = M.ok_return_blocks(b3)
         parses = M.call_blocks(b3, r"core::str::<impl str>::parse$")
+        vb, via = b3, None
+        if not parses:
+            # the validation may sit in a private helper parse_inner calls: then the helper has the loop, and parse_inner must run it
+            # before its Ok return and look at its result (`?` or a match)
+            for ci_, t_ in b3.calls():
+                hb_ = prog.bodies.get(callee_name(t_) or "")
+                if hb_ is not None and hb_.name.startswith("leptos_i18n_build::") and not hb_.is_pub and M.call_blocks(hb_, r"core::str::<impl str>::parse$"):
+                    vb, via = hb_, ci_
+                    break
+        b3_oks = oks
+        if via is not None:
+            dest_ = b3.blocks[via]["term"]["dest"]["l"]
+            cps_ = set(M.copies_of(b3, dest_)) | {dest_}
+            looked = any((op_place(a_) or {}).get("l") in cps_ for _i2, t2 in b3.calls() if re.search(r"Try>::branch$", callee_name(t2) or "") for a_ in t2["args"]) \
+                or bool(M.discr_switches(b3, lambda pl_: pl_["l"] in cps_))
+            if not (b3_oks and b3.dominates(via, b3_oks[0]) and looked):
+                r.viol("R1:parse_inner#validate-locales", "the helper that validates the locale names (%s) does not run before every Ok return of parse_inner, or its result is not looked at" % vb.name.split("::")[-1], file=b3.file, line=b3.line)
+            parses = M.call_blocks(vb, r"core::str::<impl str>::parse$")
+            oks = M.ok_return_blocks(vb)
+        b3 = vb
         errs = M.agg_blocks(b3, "error::Error", "InvalidLocale")
         lp = M.loop_of(b3, parses[0]) if parses else None
         # the type the names are validated as is the type they are later parsed-and-unwrapped as (get_locales_langids and its closures)
@@ -388,8 +417,15 @@ def r1_unrenderable(ctx, prog):
                     m_ = re.search(r"parse::<(.+)>$", full) or re.search(r"^<?([\w:]+?)(?: as [^>]+>)?::(?:from_str|try_from_bytes|try_from_str)$", full)
                     out.add(m_.group(1) if m_ else full)
             return out
-        validated = _parsed_types([b3.name])
-        users = [n_ for n_ in prog.bodies if root_fn(n_) == "leptos_i18n_build::TranslationsInfos::get_locales_langids"]
+        validated = _parsed_types([b3.name])          # (b3: parse_inner, or the private helper holding the validation)
+        users = [n_ for n_ in prog.bodies if root_fn(n_) == "leptos_i18n_build::TranslationsInfos::get_locales_langids" or n_.startswith("leptos_i18n_build::TranslationsInfos::get_locales_langids::")]
+        # (a private helper it hands the names to counts as part of it)
+        for n_ in list(users):
+            for _i, t_ in prog.bodies[n_].calls():
+                cn_ = callee_name(t_) or ""
+                hb_ = prog.bodies.get(cn_)
+                if hb_ is not None and cn_.startswith("leptos_i18n_build::") and not hb_.is_pub and cn_ not in users:
+                    users.append(cn_)
         used = _parsed_types(users)
         if users and not used:
             r.viol("R1:get_locales_langids#parse", "get_locales_langids no longer parses the locale names with a call the rule recognises: cannot relate it to the validation in parse_inner", file=b3.file)
